@@ -102,6 +102,8 @@ type c15Step struct {
 	// N bytes of the host's answer / read data delivered). Renter side:
 	// close-after-header, stall-close (half the body, a pause, then close).
 	Cut string `json:"cut,omitempty"`
+	// attach / detach: index of the entry the corruption applies to (default: the last)
+	BadAt *int `json:"bad_at,omitempty"`
 	// debit ops: the host's store fails the DebitAccount call
 	Fault bool `json:"fault,omitempty"`
 	// paused-funder: funding RPC A (repl-pool | repl-acc on Pool / Acc towards
@@ -306,7 +308,10 @@ func (c *c15) do(st c15Step) (res c15Result) {
 			a := proto4.PoolAttachment{Account: c.acct(st.Acc[i]), Pool: c.pool(st.Pool[i]), ValidUntil: time.Now().Add(3 * time.Hour)}
 			key := c.poolKeys[st.Pool[i]]
 			hk := hostKey
-			last := i == len(st.Acc)-1 // corruptions apply to the last entry of a batch
+			last := i == len(st.Acc)-1 // corruptions apply to the last entry of a batch unless BadAt says otherwise
+			if st.BadAt != nil {
+				last = i == *st.BadAt
+			}
 			if last {
 				switch st.Bad {
 				case "signed-by-account":
@@ -348,6 +353,9 @@ func (c *c15) do(st c15Step) (res c15Result) {
 			}
 			hk := hostKey
 			last := i == len(st.Acc)-1
+			if st.BadAt != nil {
+				last = i == *st.BadAt
+			}
 			if last {
 				switch st.Bad {
 				case "signed-by-foreign":
@@ -581,6 +589,9 @@ func (c *c15) step(st c15Step) error {
 	}
 	c.r.Eval()
 	c.r.Count("steps_"+st.Op, 1)
+	if st.BadAt != nil {
+		c.r.Distinct(fmt.Sprintf("forged:%s:%s:%d-of-%d", st.Op, st.Bad, *st.BadAt, len(st.Acc)))
+	}
 	if st.Bad != "" {
 		c.r.Count("bad_steps", 1)
 		c.r.SetAdd("bad_kinds", st.Op+":"+st.Bad)
@@ -1464,6 +1475,104 @@ func (c *c15) runPausedFunders(reps int) error {
 	return nil
 }
 
+// runForgedBatches: multi-entry attach / detach batches with ONE forged entry
+// at the first, a middle and the last position. The forged link (a victim's
+// pool -> the attacker's account) must never take effect: afterwards the
+// attacker cannot draw on the victim's pool, whose balance only changes by its
+// owner's usage; a forged detachment does not cut the victim off.
+func (c *c15) runForgedBatches() error {
+	read := c.debitOps()[0]
+	cost := c.costOf(read)
+	y, x := len(c.accKeys), len(c.accKeys)+1 // victim, attacker
+	c.acct(x + 1)
+	v, o1, o2 := len(c.poolKeys), len(c.poolKeys)+1, len(c.poolKeys)+2
+	c.pool(o2)
+	setup := []c15Step{
+		{Op: "repl-pool", Pool: []int{v}, Amounts: []string{hs(cost.Mul64(40))}},
+		{Op: "repl-pool", Pool: []int{o1, o2}, Amounts: []string{hs(cost.Div64(4))}},
+		{Op: "attach", Acc: []int{y}, Pool: []int{v}},
+	}
+	for _, st := range setup {
+		if err := c.step(st); err != nil {
+			return err
+		}
+	}
+	minus, plus := -1, 1
+	positions := map[int]string{0: "first", 1: "middle", 2: "last"}
+	for _, bad := range []string{"signed-by-account", "signed-by-foreign", "other-account-signature", "detach-signature", "other-host", "zero-sig"} {
+		for pos := 0; pos < 3; pos++ {
+			// [.., forged(victim pool -> attacker), ..] among valid attachments of the attacker's own pools
+			acc := []int{x, x, x}
+			var pool []int
+			if pos == 0 {
+				pool = []int{v, o1, o2}
+			} else if pos == 1 {
+				pool = []int{o1, v, o2}
+			} else {
+				pool = []int{o1, o2, v}
+			}
+			p := pos
+			if err := c.step(c15Step{Op: "attach", Acc: acc, Pool: pool, Bad: bad, BadAt: &p}); err != nil {
+				return err
+			}
+			c.r.Count("forged_batches_position_"+positions[pos], 1)
+			// the attacker cannot draw on the victim's pool (nor on its own: the batch was refused as a whole)
+			st := read
+			st.Acc, st.Tune = []int{x}, &minus
+			if err := c.step(st); err != nil {
+				return err
+			}
+		}
+		// the two-entry batch [forged, valid]
+		zero := 0
+		if err := c.step(c15Step{Op: "attach", Acc: []int{x, x}, Pool: []int{v, o1}, Bad: bad, BadAt: &zero}); err != nil {
+			return err
+		}
+		c.r.Count("forged_batches_position_first", 1)
+		st := read
+		st.Acc, st.Tune = []int{x}, &minus
+		if err := c.step(st); err != nil {
+			return err
+		}
+		// the victim still draws on its pool
+		st = read
+		st.Acc, st.Tune = []int{y}, &plus
+		if err := c.step(st); err != nil {
+			return err
+		}
+	}
+	// forged detachments of the victim's link among valid ones of the attacker
+	if err := c.step(c15Step{Op: "attach", Acc: []int{x, x}, Pool: []int{o1, o2}}); err != nil {
+		return err
+	}
+	for _, bad := range []string{"signed-by-foreign", "attach-signature", "other-host", "zero-sig"} {
+		for pos := 0; pos < 3; pos++ {
+			var acc, pool []int
+			switch pos {
+			case 0:
+				acc, pool = []int{y, x, x}, []int{v, o1, o2}
+			case 1:
+				acc, pool = []int{x, y, x}, []int{o1, v, o2}
+			default:
+				acc, pool = []int{x, x, y}, []int{o1, o2, v}
+			}
+			p := pos
+			// Signer "account": entries are signed by their account's key; the forged one by a wrong key
+			if err := c.step(c15Step{Op: "detach", Acc: acc, Pool: pool, Signer: "account", Bad: bad, BadAt: &p}); err != nil {
+				return err
+			}
+			c.r.Count("forged_batches_position_"+positions[pos], 1)
+			st := read
+			st.Acc, st.Tune = []int{y}, &plus
+			if err := c.step(st); err != nil {
+				return err
+			}
+		}
+	}
+	c.r.Count("forged_batch_scenarios", 1)
+	return nil
+}
+
 func (c *c15) runRandom(n int) error {
 	// population: 4 accounts, 3 pools, funded and partly attached
 	a0, p0 := len(c.accKeys), len(c.poolKeys)
@@ -1576,6 +1685,9 @@ func runC15(r *mon.Run, replay string) {
 	r.Floor("debit_store_faults", 8)
 	r.Floor("contention_rounds_exact", 200)
 	r.Floor("settings_changes", 20)
+	r.Floor("forged_batches_position_first", 20)
+	r.Floor("forged_batches_position_middle", 10)
+	r.Floor("forged_batches_position_last", 10)
 	r.Floor("debits_priced_by_older_signed_table", 60)
 	r.Floor("contention_rpcs_refused", 300)
 	var wg sync.WaitGroup
@@ -1603,6 +1715,11 @@ func runC15(r *mon.Run, replay string) {
 				}
 				if err := c.runPausedFunders(r.Pick(2, 6)); err != nil {
 					return err
+				}
+				if w%2 == 0 {
+					if err := c.runForgedBatches(); err != nil {
+						return err
+					}
 				}
 				for i := 0; i < r.Pick(3, 12); i++ {
 					if err := c.runPoolOrder(40); err != nil {
